@@ -644,6 +644,25 @@ class State:
                     cb = other._bound_with_alias(x, y, p, vb)
                     if ca is not None and cb is not None:
                         s.rel[(x, y)] = min(s.rel.get((x, y), max(ca, cb)), max(ca, cb))
+        # a place holding different constants on the two sides, each of them below a container length known on that side
+        # (`o = 11, len >= 11` joined with `o = 59, len >= 59`): keep  place <= len
+        for p in numeric_places:
+            xt = ("v", p[0], p[1])
+            va, vb = self.sym.get(p), other.sym.get(p)
+            if not (va is not None and vb is not None and va[0] == "n" and vb[0] == "n" and va[1] is None and vb[1] is None):
+                continue
+            for t in self.iv:
+                if t[0] != "len" or t not in other.iv:
+                    continue
+                la, lb = self.iv[t][0], other.iv[t][0]
+                if la is None or lb is None:
+                    continue
+                d = max(va[2] - la, vb[2] - lb)
+                if d <= 0 and (xt, t) not in s.rel:
+                    hi = s.iv.get(xt, FULL)[1]
+                    lo = s.iv.get(t, FULL)[0]
+                    if hi is None or lo is None or hi - lo > d:
+                        s.rel[(xt, t)] = d
         # boolean flag correlation: a local that is the constant true on one side and false on the other remembers
         # the facts that distinguish the two sides ("is_short == true  =>  ch <= 255 ...")
         for p in set(self.sym) | set(other.sym):
